@@ -824,14 +824,7 @@ def install(ex):
 
     @M(r'^<.* as Iterator>::next$|^<.* as DoubleEndedIterator>::next_back$')
     def iter_next(ex, c, a):
-        it = a[0].get()
-        if not isinstance(it, IterV):
-            if isinstance(it, Agg) and it.ty == 'Range':
-                return _range_next(ex, it)
-            if hasattr(it, 'mirx_next'):
-                return it.mirx_next(ex)
-            raise Unsupported('next on ' + repr(it)[:60])
-        return iter_next_val(ex, it)
+        return any_next(ex, a[0].get(), c)
 
     @M(r'^<.* as Iterator>::sum::<(u\d+|usize)>$')
     def iter_sum(ex, c, a):
@@ -871,7 +864,7 @@ def install(ex):
         it = a[0].get() if isinstance(a[0], Ref) else a[0]
         is_all = '::all::<' in c
         while True:
-            nx = _range_next(ex, it) if (isinstance(it, Agg) and it.ty == 'Range') else iter_next_val(ex, it)
+            nx = any_next(ex, it, c)
             if nx.variant == 0:
                 return is_all
             r = ex.concretize_bool(ex.call_closure(a[1], [nx.f[0]]))
@@ -884,7 +877,7 @@ def install(ex):
     def iter_for_each(ex, c, a):
         it = a[0]
         while True:
-            nx = iter_next_val(ex, it)
+            nx = any_next(ex, it, c)
             if nx.variant == 0:
                 return UNIT
             ex.call_closure(a[1], [nx.f[0]])
@@ -1241,6 +1234,50 @@ def install(ex):
             n += 1
             if n > 4096:
                 raise Unsupported('range loop bound')
+
+    # inclusive ranges: (start, end, exhausted)
+    @M(r'^(std|core)::ops::RangeInclusive::<.*>::new$|^RangeInclusive::<.*>::new$')
+    def rangeinc_new(ex, c, a):
+        return Agg('RangeInclusive', {0: a[0], 1: a[1], 2: False})
+
+    @M(r'^<(std|core)::ops::RangeInclusive<[ui](\d+|size)> as IntoIterator>::into_iter$')
+    def rangeinc_into_iter(ex, c, a):
+        return a[0]
+
+    @M(r'^(std|core)::ops::RangeInclusive::<.*>::(start|end)$')
+    def rangeinc_bounds(ex, c, a):
+        r = deref(a[0])
+        return Ref(r.f, 0 if c.endswith('start') else 1)
+
+    @M(r'^<(std|core)::ops::RangeInclusive<[ui](\d+|size)> as Iterator>::next$')
+    def rangeinc_next(ex, c, a):
+        return _rangeinc_next(ex, a[0].get(), '<i' in c.replace('RangeInclusive<', '<'))
+
+    @M(r'^<(std|core)::ops::RangeInclusive<[ui](\d+|size)> as Iterator>::(all|any)::<')
+    def rangeinc_all(ex, c, a):
+        r = a[0].get() if isinstance(a[0], Ref) else a[0]
+        is_all = '::all::<' in c
+        signed = 'RangeInclusive<i' in c
+        n = 0
+        while True:
+            nx = _rangeinc_next(ex, r, signed)
+            if nx.variant == 0:
+                return is_all
+            res = ex.concretize_bool(ex.call_closure(a[1], [nx.f[0]]))
+            if is_all and not res:
+                return False
+            if not is_all and res:
+                return True
+            n += 1
+            if n > 4096:
+                raise Unsupported('range loop bound')
+
+    @M(r'^(std|core)::ops::RangeInclusive::<.*>::contains::<')
+    def rangeinc_contains(ex, c, a):
+        r = deref(a[0])
+        x = deref(a[1])
+        signed = bool(re.search(r'RangeInclusive::<i', c))
+        return b_and(ex.binop('Le', r.f[0], x, signed), ex.binop('Le', x, r.f[1], signed))
 
     @M(r'^Vec::<.*>::resize$')
     def vec_resize(ex, c, a):
@@ -1746,6 +1783,33 @@ class _PairRef:
         e = list(self.items[self.i])
         e[k] = v
         self.items[self.i] = tuple(e)
+
+
+def _rangeinc_next(ex, r, signed=False):
+    if r.f[2]:
+        return none()
+    if not ex.concretize_bool(ex.binop('Le', r.f[0], r.f[1], signed)):
+        r.f[2] = True
+        return none()
+    cur = r.f[0]
+    if ex.concretize_bool(ex.binop('Lt', cur, r.f[1], signed)):
+        r.f[0] = ex.binop('Add', cur, Int(cur.w, 1), False)
+    else:
+        r.f[2] = True
+    return some(cur)
+
+
+def any_next(ex, it, c=''):
+    """next() on whatever stands for an iterator: IterV, an integer Range / RangeInclusive aggregate, or an object with mirx_next"""
+    if isinstance(it, Agg) and it.ty == 'Range':
+        return _range_next(ex, it)
+    if isinstance(it, Agg) and it.ty == 'RangeInclusive':
+        return _rangeinc_next(ex, it, bool(re.search(r'RangeInclusive<i', c)))
+    if hasattr(it, 'mirx_next'):
+        return it.mirx_next(ex)
+    if isinstance(it, IterV):
+        return iter_next_val(ex, it)
+    raise Unsupported('next on ' + repr(it)[:60])
 
 
 def _range_next(ex, r):
